@@ -62,7 +62,7 @@ P['C01'] = dict(
     level_text='The real mqtt_client publishes QoS 1/2 messages with symbolic topic/payload bytes, RETAIN and Message Expiry against a broker model whose every reaction (correct ack with any listed code and short form, wrong type, unknown id, inadmissible code, oversize property length, any chunking, connection loss + reconnect) is explored up to the step bound. Monitor: a completion without error implies that the reference decoder found exactly the requested PUBLISH on the wire of some connection and that the broker afterwards sent the final acknowledgement for that id with the reason code the handler received.',
     level_note='Bounds: 1 publish of either QoS and 6 steps (quick) / 2 publishes (QoS 2 then QoS 1) and 7 steps (thorough), 1 adversarial packet, 1 reconnect; topics/payloads of 2 bytes (one symbolic each). Stub world replaces sockets/timers/resolver; a write is delivered entirely or not at all.',
     assumptions=_pub_assume,
-    jobs=[_pub_job('publish_truthful', 1, 6, 7, ['puback', 'pubrec', 'pubcomp', 'bad-packet', 'reconnected', 'success-checked'])])
+    jobs=[_pub_job('publish_truthful', 1, 6, 7, ['puback', 'pubrec', 'pubcomp', 'bad-packet', 'reconnected', 'success-checked', 'early-delivery'])])
 P['C02'] = dict(
     level_text='Same exploration as C01 with the no-loss monitor: no accepted, un-cancelled publish completes with a transport error or try_again at any point, and from every explored state a fault-free suffix (broker reachable, answers everything) completes every request. Retransmission with the same packet identifier is checked by C03\'s monitor.',
     level_note='Bounded liveness only: the suffix is at most 10 rounds; "eventually" beyond it is not claimed. Faults explored: connection reset at quiescent points (with and without a write in progress), lost acknowledgements, one malformed/unsolicited packet. Refused connections and silent brokers are covered in C10/C12.',
